@@ -1,6 +1,6 @@
 import GomlVerif.Lemmas.InferTotal
 import GomlVerif.Model.InferSpec
-import GomlVerif.Lemmas.C03presMatch
+import GomlVerif.Lemmas.InferCert
 /-!
 Theorems about the model of the typer's constraint generation (`Model/Infer.lean`, the fragment of
 `typer/check.rs` + `localenv.rs` + `toplevel.rs::typecheck_fn` listed there), composed with those about
@@ -72,47 +72,6 @@ theorem inferFn_store_invariant {G fuel params ret body σ0 r} (h : inferFn G fu
 /-- the two types are identical or have agreeing normal forms in `σ` (equal up to array lengths one of
 which is the wildcard — `unify_sound`; plain equality when no wildcard length occurs: `unify_sound_eq`) -/
 def AgreeIn (σ : Store) (l r : Ty) : Prop := l = r ∨ Eqv σ l r
-
-theorem isEqC_sound {l r c} (h : isEqC l r c = true) : c = .eq l r := by
-  cases c with
-  | eq a b =>
-    simp only [isEqC, Bool.and_eq_true] at h
-    rw [Match.tyEqB_sound _ _ h.1, Match.tyEqB_sound _ _ h.2]
-  | ovl _ _ _ => simp [isEqC] at h
-  | field _ _ _ => simp [isEqC] at h
-
-/-- an obligation discharged by the queue holds under every relation that contains the identity and
-the queued equalities -/
-theorem checkB_sound {R : Ty → Ty → Prop} {cs : List Constraint} {bs funs o}
-    (hR : ∀ l r, Constraint.eq l r ∈ cs → R l r) (hrefl : ∀ t, R t t)
-    (h : checkB (fun a b => Match.tyEqB a b || cs.any (isEqC a b)) bs funs o = true) :
-    Holds R (fun x => lookupScope x bs) funs o := by
-  cases o with
-  | rel a b =>
-    simp only [checkB, Bool.or_eq_true, List.any_eq_true] at h
-    rcases h with h | ⟨c, hc, he⟩
-    · rw [Match.tyEqB_sound _ _ h]; exact hrefl _
-    · rw [isEqC_sound he] at hc; exact hR _ _ hc
-  | same a b => exact Match.tyEqB_sound _ _ h
-  | bound x ty =>
-    simp only [checkB] at h
-    simp only [Holds]
-    cases hl : lookupScope x bs with
-    | none => simp [hl] at h
-    | some t => simp only [hl] at h; rw [Match.tyEqB_sound _ _ h]
-  | inst n ty =>
-    simp only [checkB] at h
-    cases hl : lookupAssoc n funs with
-    | none => simp [hl] at h
-    | some sch => simp only [hl] at h; exact ⟨sch, hl, instStore ty, Match.tyEqB_sound _ _ h⟩
-  | projOk tup idx ty =>
-    cases tup <;> simp only [checkB] at h <;> try contradiction
-    rename_i tys
-    cases hi : tys[idx]? with
-    | none => simp [hi] at h
-    | some t => simp only [hi] at h; exact ⟨tys, rfl, by rw [hi, Match.tyEqB_sound _ _ h]⟩
-  | fld _ _ _ => simp [checkB] at h
-  | bad => simp [checkB] at h
 
 /-- **Acceptance is type-sound (partial).**  If `typecheck_fn` ends WITHOUT ANY DIAGNOSTIC — none from
 generation, none from `solve` — then the elaborated body is well typed in the declarative judgement `Wt`
